@@ -452,6 +452,67 @@ theorem C07_showRows (o : AclObj) (i : Nat) (r : Rule) :
       | zero => exact absurd hk this
       | succ k => simp [he]
 
+/-! ### overwriting an occupied position -/
+
+/-- **`add_rule` at an occupied position REPLACES the rule**, whatever was there — a rule equal to the new one in all but
+one field (a wildcard mask, say) included: the edit succeeds, the slot afterwards holds exactly the new rule with a zero
+counter, and the old rule is still there only if it IS that rule (same eight fields and a zero counter). -/
+theorem C07_addRule_replaces (o : AclObj) (r old : Rule) (pos : Int)
+    (hin : o.inBound pos = true) (hold : o.core.rules[pos.toNat]? = some (some old)) :
+    (o.addRule r pos).2 = .ok ∧
+    (o.addRule r pos).1.core.rules[pos.toNat]? = some (some { r with hits := 0 }) ∧
+    ((o.addRule r pos).1.core.rules[pos.toNat]? = some (some old) ↔ old = { r with hits := 0 }) := by
+  have hlt : pos.toNat < o.core.rules.length := by
+    obtain ⟨h, _⟩ := List.getElem?_eq_some_iff.mp hold
+    exact h
+  have hb : 0 ≤ pos ∧ pos < o.maxRules - 1 := by
+    simpa [AclObj.inBound] using hin
+  have hok : (o.addRule r pos).2 = .ok := (C07_obj_addRule o r pos).2.2.1.mpr ⟨hb.1, hb.2, hlt⟩
+  have hslot := ((C07_obj_addRule o r pos).2.2.2.2.1 hok).1
+  refine ⟨hok, hslot, ?_⟩
+  rw [hslot]
+  constructor
+  · intro h; injection h with h; injection h with h; exact h.symm
+  · intro h; rw [h]
+
+/-- …and the new rule decides: after the overwrite, a packet the NEW rule matches and no lower-positioned rule matches gets
+the new rule's action from position `pos` — the old occupant plays no part. -/
+theorem C07_overwrite_decides (o : AclObj) (r old : Rule) (pos : Int) (p : Packet)
+    (hin : o.inBound pos = true) (hold : o.core.rules[pos.toNat]? = some (some old))
+    (hm : r.hits? p = true)
+    (hlow : ∀ j, j < pos.toNat → ∀ r' : Rule, o.core.rules[j]? = some (some r') → r'.hits? p = false) :
+    ((o.addRule r pos).1.isPermitted p).1 = (r.action == .permit) ∧
+    ((o.addRule r pos).1.isPermitted p).2.1 = .rule pos.toNat := by
+  obtain ⟨hok, hslot, _⟩ := C07_addRule_replaces o r old pos hin hold
+  have hother := ((C07_obj_addRule o r pos).2.2.2.2.1 hok).2
+  have hv := C07_verdict_first_match (o.addRule r pos).1.core p
+  simp only at hv
+  have hnew : Rule.hits? { r with hits := 0 } p = true := hm
+  rcases hv with ⟨i, r', h1, h2, h3, h4, h5⟩ | ⟨h1, _, _⟩
+  · have hle : ¬ pos.toNat < i := fun hlt => by
+      have := h3 pos.toNat hlt _ hslot
+      rw [hnew] at this; exact absurd this (by simp)
+    have hge : ¬ i < pos.toNat := fun hlt => by
+      have hne : i ≠ pos.toNat := by omega
+      rw [hother i hne] at h1
+      have := hlow i hlt r' h1
+      rw [h2] at this; exact absurd this (by simp)
+    have hi : i = pos.toNat := by omega
+    subst hi
+    rw [hslot] at h1
+    injection h1 with h1; injection h1 with h1
+    subst h1
+    exact ⟨h4, h5⟩
+  · have := h1 pos.toNat _ hslot
+    rw [hnew] at this; exact absurd this (by simp)
+
+/-- non-vacuity: the exact-address rule at 1 corrected to a /24 range at 1 — the slot holds the range rule, and a host
+inside the range but not the old address is now decided by it -/
+example :
+    let o := ((AclObj.construct none 25).addRule { exRuleDenyHttp with srcWc := none } 1).1
+    (o.addRule exRuleDenyHttp 1).1.core.rules[1]? = some (some exRuleDenyHttp) ∧
+    (o.isPermitted exPkt).2.1 = .implicit ∧ ((o.addRule exRuleDenyHttp 1).1.isPermitted exPkt).2.1 = .rule 1 := by decide
+
 /-! ### verdicts depend on the slots and the implicit action only -/
 
 /-- sequences made of verdict requests and `max_acl_rules` assignments -/
